@@ -58,6 +58,11 @@ Definition dkg_gpk (mpks : seq (seq G2)) : G2 := \sum_(mpk <- mpks) mpk`_0.
 (* AggregatePublicKeyShares: gmpk[id] = sum over parties of PublicKey.Set(mpk, id) *)
 Definition dkg_gpk_at (mpks : seq (seq G2)) (i : F) : G2 := \sum_(mpk <- mpks) dkg_pk_eval mpk i.
 
+(* AggregatePublicKeyShares as a state update: the map party id -> public key share is REBUILT
+   from the given public polynomials for the given ids; whatever it held before is dropped *)
+Definition dkg_agg_pub (old : seq (F * G2)) (mpks : seq (seq G2)) (ids : seq F) : seq (F * G2) :=
+  [seq (i, dkg_gpk_at mpks i) | i <- ids].
+
 (* Sign / Verify of the library: sig = sk * H(m); e(sig, g2) == e(H(m), pk) *)
 Definition dkg_sign (sk : F) (m : M) : G1 := sk *: H m.
 Definition dkg_verify (pk : G2) (m : M) (sig : G1) : bool := e sig g2 == e (H m) pk.
